@@ -154,7 +154,8 @@ class C02(Prop):
         import importlib
         for name, cap in (("c05", 2500), ("c20", 2500), ("c11", 2500)):
             try:
-                cs = importlib.import_module(f"vlib.props.{name}").PROP.cases("quick", seed)
+                owner = importlib.import_module(f"vlib.props.{name}").PROP
+                cs = [c for c in owner.cases("quick", seed) if not owner.compare_from(c)]
             except Exception as ex:            # pragma: no cover
                 print(f"note: C02 skips the {name} population: {ex}")
                 continue
